@@ -12,7 +12,15 @@ From RX.Proofs Require Import StrictModel StrictStream StrictTok StrictRunModel 
 Open Scope N_scope.
 
 Tactic Notation "dsh" "as" simple_intropattern(p) :=
-  match goal with |- bind ?a _ = bind ?a _ => destruct a as p; cbn [bind]; try reflexivity end.
+  match goal with |- bind ?a _ = bind ?a _ =>
+    destruct a as p; cbn [bind];
+    try solve [match goal with
+               | |- ?x = ?y => constr_eq x y; reflexivity
+               | |- Err _ = _ => reflexivity
+               | |- Panic _ = _ => reflexivity
+               | |- OutOfFuel = _ => reflexivity
+               end]
+  end.
 
 Definition noP : panic_site -> Prop := fun _ => False.
 
@@ -60,7 +68,13 @@ Ltac evstep c1 H :=
     [ split; [split|]; cbn [TokOk tok_pre NoPanicTokenizer.St fst snd]; auto
     | destruct T as [T1 T2]; rewrite (Hagree tok c T1 T2);
       pose proof (Hev2 tok c T1 T2) as H;
-      destruct (ev2 tok c) as [c1| | |]; cbn [bind]; try reflexivity;
+      destruct (ev2 tok c) as [c1| | |]; cbn [bind];
+      try solve [match goal with
+                 | |- ?x = ?y => constr_eq x y; reflexivity
+                 | |- Err _ = _ => reflexivity
+                 | |- Panic _ = _ => reflexivity
+                 | |- OutOfFuel = _ => reflexivity
+                 end];
       cbn [safeP tok_post NoPanicTokenizer.St] in H ]
   end.
 
